@@ -164,8 +164,10 @@ class Inst:
     binders Lean binder text of each param (defaults to `(name : type)`)
     """
 
-    def __init__(self, qual, lean, params, ret, doc=''):
+    def __init__(self, qual, lean, params, ret, doc='', kw=None, state=()):
         self.qual, self.lean, self.params, self.ret, self.doc = qual, lean, list(params), ret, doc
+        self.kw = kw                # (geojson_doc) (python name, type) of a `**kwargs` parameter that is a real binder
+        self.state = tuple(state)   # (geojson_doc) parameters the function mutates: their final values are returned too
 
     @property
     def raises(self):
@@ -191,7 +193,7 @@ LEAN_TYPE = {'Dt': 'Int', 'Td': 'Int', 'Int': 'Int', 'Bool': 'Bool', 'TI': 'GV.T
 
 def lean_type(t):
     if t.startswith('Except '):
-        return 'Except String ' + _paren(lean_type(t[7:]))
+        return 'Except String ' + _parenw(lean_type(t[7:]))
     if t.startswith('Heap '):
         return LEAN_TYPE['HeapT'] + ' × ' + _parenw(lean_type(t[5:]))
     if t.startswith('Prod '):
@@ -337,7 +339,8 @@ class Unit:
         body = tr.function_body()
         binders = ' '.join([f'({n} : {t})' for n, t in self.ctx_params] +
                            ([f'(heap_0 : {LEAN_TYPE["HeapT"]})'] if inst.heaped else []) +
-                           [f'({lname(n)} : {lean_type(t)})' for n, t in inst.params if t != 'None'])
+                           [f'({lname(n)} : {lean_type(t)})' for n, t in inst.params if t != 'None'] +
+                           ([f'({lname(inst.kw[0])} : {lean_type(inst.kw[1])})'] if getattr(inst, 'kw', None) else []))
         shown = ast.parse(ast.unparse(fn)).body[0]
         if (shown.body and isinstance(shown.body[0], ast.Expr) and isinstance(getattr(shown.body[0], 'value', None), ast.Constant)
                 and isinstance(shown.body[0].value.value, str) and len(shown.body) > 1):
@@ -384,6 +387,8 @@ class FnTr:
             self.env[n] = Val(lname(n), t, path=n)
         if fn.args.kwarg is not None:
             self.env[fn.args.kwarg.arg] = Val('()', 'Kw')          # **kwargs: only what a unit's `method` hook reads from it
+            if getattr(inst, 'kw', None):                            # (geojson_doc) … or a declared binder read by the unit's hooks
+                self.env[fn.args.kwarg.arg] = Val(lname(inst.kw[0]), inst.kw[1], path=inst.kw[0])
         want = [a.arg for a in fn.args.args]
         have = [n for n, _t in inst.params]
         if want[:len(have)] != have and not (fn.args.kwarg or fn.args.vararg or len(want) > len(have)):
@@ -481,6 +486,10 @@ class FnTr:
                 return self.finish_init()
             raise Unsupported(f'`{self.inst.qual}`: control can fall off the end (returns None)')
         s, rest = stmts[0], stmts[1:]
+        if self.u.hooks.get('geojson_doc'):
+            ext = self.gj_stmt(s, rest)           # dict stores, appends of raising values, nested defs with declared types: see `gj_stmt`
+            if ext is not None:
+                return ext
         if self.u.hooks.get('worklist'):
             ext = self.ext_stmt(s, rest)          # work-list subset (local sets / dicts, nested loops): see `ext_stmt`
             if ext is not None:
@@ -600,6 +609,8 @@ class FnTr:
         if self.inst.ret == '?' and not getattr(v, 'raises', False) and v.typ != 'None' and '?' not in v.typ:
             self.inst.ret = v.typ                    # a lifted local definition (`local_defs`): the first `return` fixes the result type
         want = self.inst.value_type
+        if getattr(self.inst, 'state', ()):
+            return self.gj_ret_with_state(v)
         if getattr(v, 'raises', False):
             if not self.inst.raises:
                 raise Unsupported(f'`{self.inst.qual}`: returns a call that may raise, but is declared not to raise')
@@ -619,6 +630,10 @@ class FnTr:
             return 'none'
         if want == 'Bool' and v.typ.startswith('Opt '):
             raise Unsupported(f'`{self.inst.qual}`: returns an Optional where a bool is declared')
+        if 'gj_coerce' in self.u.hooks:
+            r = self.u.hooks['gj_coerce'](self, v, want)
+            if r is not None:
+                return r
         raise Unsupported(f'`{self.inst.qual}`: value of type {v.typ} where {want} is declared: `{v.text}`')
 
     def if_stmt(self, s, rest):
@@ -922,6 +937,11 @@ class FnTr:
             if isinstance(test.op, ast.And):
                 return self.branch(first, lambda tr: tr.branch(more, then_k, else_k), else_k)
             return self.branch(first, then_k, lambda tr: tr.branch(more, then_k, else_k))
+        if self.u.hooks.get('geojson_doc') and isinstance(test, ast.Compare) and len(test.ops) == 1 \
+                and isinstance(test.ops[0], (ast.Is, ast.IsNot)):
+            st = self.static_test(test)         # `x is None` on a value already narrowed (or declared) non-optional
+            if st is not None:
+                return (then_k if st else else_k)(self)
         opt = self.optional_test(test)
         if opt is not None:
             v, present_is_true = opt
@@ -968,10 +988,14 @@ class FnTr:
             node, positive = test.left, isinstance(test.ops[0], ast.IsNot)
         elif isinstance(test, (ast.Compare, ast.BoolOp, ast.UnaryOp, ast.Call)):
             return None
+        npend, nfresh = len(self.pending), self.fresh
         try:
             v = self.expr(node)
         except Unsupported:
             return None
+        if self.u.hooks.get('geojson_doc') and not (v.path is not None and v.typ.startswith('Opt ')) and len(self.pending) > npend:
+            del self.pending[npend:]        # a probe only: raising calls met on the way are bound where the test is translated
+            self.fresh = nfresh
         if v.path is not None and v.typ.startswith('Opt '):
             if node is test and self.has_falsy_value(v.typ[4:]):
                 # bare `if x:` / `x or y` / `not x` on an Optional whose values can be falsy (0.0, 0, '', [], False) is NOT a
@@ -1041,6 +1065,9 @@ class FnTr:
             return None
         if isinstance(test, ast.Constant) and isinstance(test.value, bool):
             return test.value
+        if self.u.hooks.get('geojson_doc') and isinstance(test, ast.Name) and test.id in self.env and test.id not in self.narrow \
+                and self.env[test.id].typ == 'None':
+            return False            # a parameter left at (or an instance declared at) None
         return None
 
     def assign(self, s, rest):
@@ -1183,13 +1210,20 @@ class FnTr:
                 if getattr(v, 'raises', False):
                     nm = self.gensym(lname(t.id))
                     self.env[t.id] = Val(nm, v.typ, path=t.id)
+                    self.env[t.id].fresh_dict = getattr(v, 'fresh_dict', False)
                     self.narrow.pop(t.id, None)
+                    if self.u.hooks.get('geojson_doc'):
+                        pend, self.pending = self.pending, []   # raising calls among the arguments are bound before this call
+                        inner = self.block(rest)
+                        self.pending = pend
+                        return self.wrap('\n'.join(lets + [f'match {v.text} with', '| Except.error e => Except.error e', f'| Except.ok {nm} =>', _indent(inner)]))
                     inner = self.block(rest)
                     return '\n'.join(lets + [f'match {v.text} with', '| Except.error e => Except.error e', f'| Except.ok {nm} =>', _indent(inner)])
                 nm = self.gensym(lname(t.id))
                 if self.pending:
                     self.env[t.id] = Val(nm, v.typ, path=t.id)
                     self.env[t.id].fresh = getattr(v, 'fresh', False)
+                    self.env[t.id].fresh_dict = getattr(v, 'fresh_dict', False)
                     self.narrow.pop(t.id, None)
                     pend, self.pending = self.pending, []
                     inner = self.block(rest) if (t, v) == pairs[-1] else None
@@ -1200,6 +1234,7 @@ class FnTr:
                 lets.append(f'let {nm} := {v.text}')
                 self.env[t.id] = Val(nm, v.typ, path=t.id)
                 self.env[t.id].fresh = getattr(v, 'fresh', False)
+                self.env[t.id].fresh_dict = getattr(v, 'fresh_dict', False)      # (geojson_doc) a dict made here may be stored into
                 # `ys = xs` / `ys = self.xs`: a second name for the same list object — growing it would change the other too
                 self.env[t.id].alias = isinstance(value, (ast.Name, ast.Attribute)) and v.typ.startswith(('List ', 'Set ', 'DDL '))
                 self.narrow.pop(t.id, None)
@@ -1760,7 +1795,10 @@ class FnTr:
             return Val(f'(({v.text}).reverse)', v.typ)
         if isinstance(e, ast.Call) and isinstance(e.func, ast.Name) and e.func.id == 'list' and len(e.args) == 1 and not e.keywords:
             return self.iterable(e.args[0])
-        return self.expr(e)
+        v = self.expr(e)
+        if not v.typ.startswith('List ') and 'gj_iter' in self.u.hooks:
+            v = self.u.hooks['gj_iter'](self, v) or v            # (geojson_doc) iteration over a JSON value
+        return v
 
     def for_general(self, s, rest, xs):
         """A loop with state: an auxiliary structural recursion over the list.  Its parameters are every variable in
@@ -2630,6 +2668,10 @@ class FnTr:
             return f'!({v.text}).isEmpty'
         if v.typ.startswith('Set ') and '?' not in v.typ:
             return f'!({v.text}).isEmpty'
+        if 'gj_truth' in self.u.hooks:
+            r = self.u.hooks['gj_truth'](self, v)
+            if r is not None:
+                return r
         raise Unsupported(f'truthiness of {v.typ}')
 
     def expr(self, e, allow_raise=False):
@@ -2645,6 +2687,10 @@ class FnTr:
         return v
 
     def _expr(self, e):
+        if self.u.hooks.get('geojson_doc'):
+            ext = self.gj_expr(e)                # dict displays, slices, `^`, 4-tuples, raising conditional arms, …: see `gj_expr`
+            if ext is not None:
+                return ext
         if self.u.hooks.get('worklist'):
             ext = self.ext_expr(e)               # set displays / comprehensions, dict comprehensions: see `ext_expr`
             if ext is not None:
@@ -2762,6 +2808,9 @@ class FnTr:
                     return k
                 txt = self.branch(e.test, arm(e.body), arm(e.orelse))
                 real = [t for t in types if t != 'None']
+                if self.u.hooks.get('geojson_doc') and real and len({t[4:] if t.startswith('Opt ') else t for t in real}) == 1 \
+                        and any(t.startswith('Opt ') for t in real):
+                    real = ['Opt ' + (real[0][4:] if real[0].startswith('Opt ') else real[0])] * len(real)   # `x.z if x.z is not None else y.z`
                 if not real or any(t != real[0] for t in real):
                     raise Unsupported(f'conditional expression of types {types}')
                 typ = ('Opt ' + real[0]) if 'None' in types and not real[0].startswith('Opt ') else real[0]
@@ -3136,6 +3185,10 @@ class FnTr:
             hook = self.u.hooks.get('keywords')
             if not (hook and hook(self, e)):
                 raise Unsupported(f'`{self.inst.qual}`: keyword arguments in `{ast.unparse(e)[:80]}`')
+        if self.u.hooks.get('geojson_doc'):
+            ext = self.gj_call(e)                # sum / map / list / reversed / len / abs, nested defs, the unit's raw-call hook
+            if ext is not None:
+                return ext
         f = e.func
         if isinstance(f, ast.Call) and isinstance(f.func, ast.Name) and f.func.id == 'type' and len(f.args) == 1 \
                 and 'type_ctor' in self.u.hooks:
@@ -3414,6 +3467,8 @@ class FnTr:
             if xss.typ.startswith('List List '):
                 return Val(f'(({xss.text}).flatten)', xss.typ[5:])
             raise Unsupported(f'flattening of {xss.typ}')
+        if self.u.hooks.get('geojson_doc') and len(g) == 1 and not g[0].ifs:
+            return self.gj_map_comp(e.elt, g[0])          # `[f(x) for x in xs]` (`GV.Py.mapE` when f may raise)
         if len(g) in (1, 2) and all(isinstance(c.target, ast.Name) and not c.ifs and not c.is_async for c in g):
             # `[f(x) for x in xs]` -> `xs.map`; `[f(x, y) for x in xs for y in g(x)]` -> `xs.flatMap (fun x => (g x).map …)`
             xs = self.expr(g[0].iter)
@@ -3832,6 +3887,313 @@ class FnTr:
             ks = [self.key_of(Val(f'({v.text}).{i + 1}', p)) for i, p in enumerate(parts)]
             return Val(f'({ks[0].text}, {ks[1].text})', mk_prod(k.typ for k in ks))
         raise Unsupported(f'hash key of {t}')
+
+    # ---- the `geojson_doc` subset (SrcGeoJson, C14): dict displays, JSON values, exporters' keyword dictionaries ----------
+    # (every method below is reached only through the dispatchers gated on the unit hook `geojson_doc`)
+    def gj_stmt(self, s, rest):
+        if isinstance(s, ast.Return) and s.value is None:
+            return self.ret_value(ast.Constant(value=None))       # a bare `return` returns None
+        if isinstance(s, ast.AugAssign) and isinstance(s.target, ast.Name) and isinstance(s.op, (ast.Add, ast.Sub, ast.Mult)):
+            # `x += e` is `x = x + e`
+            new = ast.Assign(targets=[s.target], value=ast.BinOp(left=ast.Name(id=s.target.id, ctx=ast.Load()), op=s.op, right=s.value))
+            return self.assign(ast.copy_location(new, s), rest)
+        if isinstance(s, ast.FunctionDef):
+            return self.gj_local_def(s, rest)
+        if isinstance(s, ast.Assign) and len(s.targets) == 1 and isinstance(s.targets[0], ast.Subscript) \
+                and isinstance(s.targets[0].value, ast.Name) and s.targets[0].value.id in self.env \
+                and self.env[s.targets[0].value.id].typ == 'JObj':
+            return self.gj_assign_item(s.targets[0], self.expr(s.value, allow_raise=True), rest)
+        c = s.value if isinstance(s, ast.Expr) else None
+        if isinstance(c, ast.Call) and isinstance(c.func, ast.Attribute) and c.func.attr == 'append' and len(c.args) == 1 \
+                and isinstance(c.func.value, ast.Name) and c.func.value.id in self.env \
+                and self.env[c.func.value.id].typ.startswith('List '):
+            n = c.func.value.id
+            v = self.expr(c.args[0])
+            old = self.env[n]
+            if old.typ != 'List ' + v.typ:
+                raise Unsupported(f'append of {v.typ} to {old.typ}')
+            nm = self.gensym(lname(n))
+            self.env[n] = Val(nm, old.typ, path=n)
+            pend, self.pending = self.pending, []            # a raising call in the appended value is bound first
+            inner = f'let {nm} := ({old.text} ++ [{v.text}])\n' + self.block(rest)
+            self.pending = pend
+            return self.wrap(inner)
+        return None
+
+    def gj_local_def(self, s, rest):
+        """a nested `def` that reads nothing but its own parameters (and module-level names): an auxiliary definition
+        emitted before the function, like a loop; its parameter and result types are declared by the unit
+        (`hooks['gj_local_fn']`)"""
+        hook = self.u.hooks.get('gj_local_fn')
+        spec = hook(self.inst.qual, s.name) if hook else None
+        if not spec or s.decorator_list:
+            raise Unsupported(f'`{self.inst.qual}`: nested function `{s.name}` without declared types')
+        params, ret = spec
+        name = f'{self.inst.lean}.{s.name.lstrip("_")}'
+        inst = Inst(f'{self.inst.qual}.<locals>.{s.name}', name, params, ret)
+        sub = FnTr(self.u, inst, s)              # its own scope: a captured local of the enclosing function is "unknown name"
+        sub.aux = self.aux
+        self.aux.append(None)
+        slot = len(self.aux) - 1
+        body = sub.function_body()
+        binders = ' '.join([f'({n} : {t})' for n, t in self.u.ctx_params] +
+                           [f'({lname(n)} : {lean_type(t)})' for n, t in params if t != 'None'])
+        self.aux[slot] = '\n'.join([f'/-- the nested function `{s.name}` of `{self.inst.qual}` -/',
+                                    f'def {name} {binders} : {lean_type(ret)} :=', _indent(body)])
+        v = Val(name, 'LocalFn')
+        v.localfn = inst
+        self.env[s.name] = v
+        return self.block(rest)
+
+    def gj_ret_with_state(self, v):
+        """`return v` of a function that mutates some of its parameters (`Inst.state`): the result paired with the final
+        values of those parameters"""
+        parts = _prod_parts(self.inst.value_type)
+        want = parts[0]
+        states = ', '.join(self.env[n].text for n in self.inst.state)
+        if getattr(v, 'raises', False):
+            nm = self.gensym('r')
+            return self.wrap(f'match {v.text} with\n| Except.error e => Except.error e\n| Except.ok {nm} =>\n'
+                             f'  Except.ok ({self.coerce(Val(nm, v.typ), want)}, {states})')
+        return self.wrap(self.ok(f'({self.coerce(v, want)}, {states})'))
+
+    def gj_assign_item(self, t, v, rest):
+        """`d[key] = value` on a *fresh* local dict (a display, `dict(…)`, `.copy()`): the dict with the key set"""
+        to_j = self.u.hooks.get('gj_to_j')
+        if not (to_j and isinstance(t.value, ast.Name) and t.value.id in self.env and self.env[t.value.id].typ == 'JObj'
+                and getattr(self.env[t.value.id], 'fresh_dict', False)):
+            raise Unsupported(f'`{self.inst.qual}`: store into `{ast.unparse(t)}` (not a fresh local dict)')
+        name = t.value.id
+        d = self.env[name]
+        key = self.expr(t.slice)
+        if key.typ != 'Str':
+            raise Unsupported(f'dict store with a key of type {key.typ}')
+        nm = self.gensym(lname(name))
+        new = Val(nm, 'JObj', path=name)
+        new.fresh_dict = True
+        if getattr(v, 'raises', False):
+            r = self.gensym('r')
+            self.env[name] = new
+            self.narrow.pop(name, None)
+            inner = f'let {nm} := (GV.GeoJson.oset {d.text} {key.text} {to_j(self, Val(r, v.typ))})\n' + self.block(rest)
+            return self.wrap('\n'.join([f'match {v.text} with', '| Except.error e => Except.error e', f'| Except.ok {r} =>', _indent(inner)]))
+        self.env[name] = new
+        self.narrow.pop(name, None)
+        pend, self.pending = self.pending, []
+        inner = f'let {nm} := (GV.GeoJson.oset {d.text} {key.text} {to_j(self, v)})\n' + self.block(rest)
+        self.pending = pend
+        return self.wrap(inner)
+
+    def gj_bind(self, v):
+        """the text of a value, binding it first if it may raise (hooks that compose several calls in evaluation order)"""
+        if getattr(v, 'raises', False):
+            if not self.inst.raises:
+                raise Unsupported(f'`{self.inst.qual}`: a call that may raise inside an expression')
+            name = self.gensym('r')
+            self.pending.append((name, v.text))
+            return name
+        return v.text
+
+    def gj_expr(self, e):
+        """expression forms beyond the first subset; None = not one of them (the older rules apply)"""
+        if isinstance(e, ast.Constant) and isinstance(e.value, str):
+            return Val(_lean_str(e.value), 'Str')
+        if isinstance(e, ast.Dict):
+            return self.gj_dict_display(e)
+        if isinstance(e, ast.BinOp) and isinstance(e.op, ast.BitXor):
+            a, b = self.expr(e.left), self.expr(e.right)
+            if a.typ == b.typ == 'Bool':
+                return Val(f'(xor {a.text} {b.text})', 'Bool')
+            raise Unsupported(f'`^` on {a.typ}, {b.typ}')
+        if isinstance(e, ast.Tuple) and len(e.elts) == 4 and not any(isinstance(x, ast.Starred) for x in e.elts):
+            vals = [self.expr(x) for x in e.elts]
+            if all(v.typ == vals[0].typ for v in vals):
+                return Val('(' + ', '.join(v.text for v in vals) + ')', 'Tuple4 ' + vals[0].typ)
+            raise Unsupported(f'tuple `{ast.unparse(e)[:60]}` of mixed types')
+        if isinstance(e, ast.Subscript):
+            sl = e.slice
+            minus1 = lambda n: isinstance(n, ast.UnaryOp) and isinstance(n.op, ast.USub) and isinstance(n.operand, ast.Constant) and n.operand.value == 1
+            if isinstance(sl, ast.Slice) and sl.lower is None and sl.upper is None and sl.step is not None and minus1(sl.step):
+                v = self.expr(e.value)                                   # `xs[::-1]`
+                if v.typ.startswith('List '):
+                    return Val(f'(({v.text}).reverse)', v.typ)
+                raise Unsupported(f'`[::-1]` of {v.typ}')
+            if isinstance(sl, ast.Slice) and sl.lower is None and sl.step is None and isinstance(sl.upper, ast.Constant) \
+                    and isinstance(sl.upper.value, int) and sl.upper.value >= 0:
+                v = self.expr(e.value)                                   # `xs[:n]`
+                if v.typ.startswith('List '):
+                    return Val(f'(({v.text}).take {sl.upper.value})', v.typ)
+                raise Unsupported(f'`[:n]` of {v.typ}')
+            if minus1(sl):
+                v = self.expr(e.value)                                   # `xs[-1]`: IndexError on the empty list
+                if v.typ.startswith('List '):
+                    r = Val(f'(GV.Py.getLast {_paren(v.text)})', v.typ[5:])
+                    r.raises = True
+                    return r
+                raise Unsupported(f'`[-1]` of {v.typ}')
+        if isinstance(e, ast.IfExp) and self.static_test(e.test) is None and not self.has_optional_test(e.test):
+            # an arm that may raise is only evaluated when it is chosen
+            ta, tb = self.sub(), self.sub()
+            ta.fresh = tb.fresh = self.fresh
+            try:
+                a, b = ta.expr(e.body), tb.expr(e.orelse)
+            except Unsupported:
+                return None
+            if ta.pending or tb.pending:
+                if not self.inst.raises:
+                    raise Unsupported(f'`{self.inst.qual}`: a call that may raise inside an expression: `{ast.unparse(e)[:80]}`')
+                if a.typ != b.typ:
+                    raise Unsupported(f'conditional expression of types {a.typ} / {b.typ}')
+                c = self.truth(self.expr(e.test))
+                self.fresh = max(ta.fresh, tb.fresh)
+                r = Val(f'(if {c} then\n{_indent(ta.wrap("Except.ok " + _paren(a.text)))}\nelse\n'
+                        f'{_indent(tb.wrap("Except.ok " + _paren(b.text)))})', a.typ)
+                r.raises = True
+                return r
+            return None
+        if isinstance(e, ast.BoolOp) and isinstance(e.op, ast.Or) and len(e.values) == 2 \
+                and all(isinstance(x, (ast.Name, ast.Attribute, ast.Dict, ast.Constant)) for x in e.values):
+            r = self.gj_or_value(e)
+            if r is not None:
+                return r
+        if isinstance(e, ast.BoolOp) and isinstance(e.op, ast.Or) and len(e.values) == 2 and isinstance(e.values[1], ast.Dict) \
+                and not e.values[1].keys and 'gj_or_dict' in self.u.hooks:
+            # `<call> or {}`
+            return self.u.hooks['gj_or_dict'](self, self.expr(e.values[0]))
+        hook = self.u.hooks.get('gj_expr')
+        return hook(self, e) if hook else None
+
+    def gj_or_value(self, e):
+        """`a or b` used for its *value* (operands are not booleans): Python returns the first truthy operand, else the last"""
+        try:
+            a, b = self.expr(e.values[0]), self.expr(e.values[1])
+        except Unsupported:
+            return None
+        truthy = self.u.hooks.get('always_truthy', ())
+        if a.typ == 'Bool' or b.typ == 'Bool':
+            return None
+        if a.typ == 'None':
+            return b
+        if a.typ == 'Opt JObj' and b.typ == 'JObj':
+            d = self.gensym('d')
+            r = Val(f'(match {a.text} with | some {d} => (if !({d}).isEmpty then {d} else {b.text}) | none => {b.text})', 'JObj')
+            return r
+        if a.typ == 'JObj' and b.typ == 'JObj':
+            return Val(f'(if !({a.text}).isEmpty then {a.text} else {b.text})', 'JObj')
+        if a.typ in truthy and not a.typ.startswith('Opt '):
+            return a
+        if a.typ.startswith('Opt ') and a.typ[4:] in truthy and b.typ in (a.typ, a.typ[4:], 'None'):
+            x = self.gensym('x')
+            bt = b.text if b.typ == a.typ else ('none' if b.typ == 'None' else f'some {_paren(b.text)}')
+            return Val(f'(match {a.text} with | some {x} => some {x} | none => {bt})', a.typ)
+        return None
+
+    def gj_dict_display(self, e):
+        """`{'k': v, **d, …}`: a dict with string keys, in insertion order (`GV.GeoJson.Obj`); a later key overrides an earlier
+        one in place, as in Python; values are brought to JSON values by the unit's `to_j`"""
+        to_j = self.u.hooks.get('gj_to_j')
+        if not to_j:
+            raise Unsupported(f'`{self.inst.qual}`: dict display `{ast.unparse(e)[:60]}`')
+        acc = None
+        for k, v in zip(e.keys, e.values):
+            if k is None:
+                d = self.expr(v)
+                if d.typ != 'JObj' and 'gj_as_dict' in self.u.hooks:
+                    d = self.u.hooks['gj_as_dict'](self, d) or d
+                if d.typ != 'JObj':
+                    raise Unsupported(f'`**` of {d.typ} in a dict display')
+                # `{**a, **b}` is the model's `oupdate a b`: a leading spread is a copy of that dict
+                acc = d.text if acc is None else f'(GV.GeoJson.oupdate {acc} {d.text})'
+            else:
+                kk, vv = self.expr(k), self.expr(v)
+                if kk.typ != 'Str':
+                    raise Unsupported(f'dict key of type {kk.typ}')
+                acc = f'(GV.GeoJson.oset {acc or "([] : GV.GeoJson.Obj)"} {kk.text} {to_j(self, vv)})'
+        r = Val(acc or '([] : GV.GeoJson.Obj)', 'JObj')
+        r.fresh_dict = True
+        return r
+
+    def gj_call(self, e):
+        """calls beyond the first subset; None = not one of them"""
+        f = e.func
+        if isinstance(f, ast.Name) and not e.keywords:
+            if f.id in self.env and getattr(self.env[f.id], 'localfn', None) is not None:
+                inst = self.env[f.id].localfn
+                args = [self.expr(a) for a in e.args]
+                if len(args) > len(inst.params) or [a.typ for a in args] != [t for _n, t in inst.params[:len(args)]]:
+                    raise Unsupported(f'`{f.id}` applied to ({", ".join(a.typ for a in args)})')
+                shown = [_paren(a.text) for a, (_n, t) in zip(args, inst.params) if t != 'None']
+                v = Val('(' + ' '.join([self.env[f.id].text] + [n for n, _t in self.u.ctx_params] + shown) + ')', inst.value_type)
+                v.raises = inst.raises
+                return v
+            if f.id == 'sum' and len(e.args) == 1 and isinstance(e.args[0], (ast.GeneratorExp, ast.ListComp)) \
+                    and len(e.args[0].generators) == 1 and not e.args[0].generators[0].ifs:
+                xs = self.gj_map_comp(e.args[0].elt, e.args[0].generators[0])
+                if getattr(xs, 'raises', False) or xs.typ != 'List R':
+                    raise Unsupported(f'sum() over {xs.typ}')
+                return Val(f'(({xs.text}).foldl (· + ·) 0)', 'R')          # Python's sum starts from the int 0
+            if f.id == 'map' and len(e.args) == 2 and isinstance(e.args[0], ast.Lambda) and len(e.args[0].args.args) == 1 \
+                    and not e.args[0].args.defaults:
+                lam = e.args[0]
+                gen = ast.comprehension(target=ast.Name(id=lam.args.args[0].arg, ctx=ast.Store()), iter=e.args[1], ifs=[], is_async=0)
+                return self.gj_map_comp(lam.body, gen)                         # consumed as a list (iteration order is the same)
+            if f.id in ('list', 'tuple') and len(e.args) == 1:
+                v = self.expr(e.args[0], allow_raise=True)
+                if v.typ.startswith('List '):
+                    return v                                                 # a (new) list with the same elements
+                raise Unsupported(f'{f.id}() of {v.typ}')
+            if f.id == 'reversed' and len(e.args) == 1:
+                v = self.expr(e.args[0])
+                if v.typ.startswith('List '):
+                    return Val(f'(({v.text}).reverse)', v.typ)            # only ever consumed as a sequence
+                raise Unsupported(f'reversed() of {v.typ}')
+            if f.id == 'len' and len(e.args) == 1:
+                v = self.expr(e.args[0])
+                if v.typ.startswith('List '):
+                    return Val(f'((({v.text}).length : Nat) : Int)', 'Int')
+                raise Unsupported(f'len() of {v.typ}')
+            if f.id == 'abs' and len(e.args) == 1:
+                v = self.expr(e.args[0])
+                if v.typ == 'R':
+                    return Val(f'(GV.absR {v.text})', 'R')
+                raise Unsupported(f'abs() of {v.typ}')
+        hook = self.u.hooks.get('gj_call')
+        return hook(self, e) if hook else None
+
+    def gj_map_comp(self, elt, gen):
+        """`[f(x) for x in xs]` (also the body of `sum(…)` / `map(lambda …)`): `List.map`, or a left-to-right `mapE` in
+        `Except` when `f` may raise"""
+        tgt = gen.target
+        pair = isinstance(tgt, ast.Tuple) and len(tgt.elts) == 2 and all(isinstance(t, ast.Name) for t in tgt.elts)
+        if not (isinstance(tgt, ast.Name) or pair) or gen.ifs:
+            raise Unsupported(f'`{self.inst.qual}`: comprehension target `{ast.unparse(tgt)}`')
+        xs = self.expr(gen.iter)
+        if not xs.typ.startswith('List ') and 'gj_iter' in self.u.hooks:
+            xs = self.u.hooks['gj_iter'](self, xs) or xs            # e.g. iteration over a JSON value
+        if not xs.typ.startswith('List '):
+            raise Unsupported(f'comprehension over {xs.typ}')
+        x = self.gensym(lname(tgt.id) if not pair else 'pair')
+        inner = self.sub()
+        inner.fresh = self.fresh
+        if pair:
+            parts = _prod_parts(xs.typ[5:])
+            if len(parts) != 2:
+                raise Unsupported(f'unpacking {xs.typ[5:]} into two names')
+            for i, t in enumerate(tgt.elts):
+                inner.env[t.id] = Val(f'{x}.{i + 1}', parts[i], path=t.id)
+                inner.narrow.pop(t.id, None)
+        else:
+            inner.env[tgt.id] = Val(x, xs.typ[5:], path=tgt.id)
+            inner.narrow.pop(tgt.id, None)
+        v = inner.expr(elt)
+        self.fresh = inner.fresh
+        if inner.pending:
+            body = inner.wrap(f'Except.ok {_paren(v.text)}')
+            r = Val(f'(GV.Py.mapE (fun {x} => (show Except String {_parenw(lean_type(v.typ))} from\n{_indent(body, 4)})) {_paren(xs.text)})',
+                    'List ' + v.typ)
+            r.raises = True
+            return r
+        return Val(f'(({xs.text}).map (fun {x} => {v.text}))', 'List ' + v.typ)
 
 
 def _has_break(stmts):
